@@ -220,7 +220,8 @@ def cont (orc : List Nat) (tot0 : Nat) (rem w : List Nat) (A : Nat) : LoopR → 
   | .more carry ph md =>
     if w.length = 0 then .fatal [] else decodeLoop orc.tail ⟨ph, carry, tot0, md⟩ (rem.drop w.length)
   | .fin used carry ph out md =>
-    if out = [] then .eof []
+    if out = [] ∧ w.length = 0 ∧ (ph = .readUU ∨ ph = .readB64) then .fatal []    -- truncated: missing end marker
+    else if out = [] then .eof []
     else if (used : Int) - ((A : Int) - w.length) ≤ 0 ∨ rem = [] then .stall out
     else Final.cons out (decodeLoop orc.tail ⟨ph, carry, tot0 + out.length, md⟩
       (rem.drop ((used : Int) - ((A : Int) - w.length)).toNat))
@@ -245,10 +246,13 @@ theorem decodeLoop_eq (orc : List Nat) (st : RState) (rem : List Nat)
     split <;> rfl
   | fin used carry ph out md =>
     simp only [cont]
-    by_cases ho : out = []
-    · simp [ho]
-    · simp only [ho, if_false]
-      split <;> rfl
+    by_cases ht : out = [] ∧ (window orc rem).length = 0 ∧ (ph = .readUU ∨ ph = .readB64)
+    · simp [ht]
+    · simp only [ht, if_false]
+      by_cases ho : out = []
+      · simp [ho]
+      · simp only [ho, if_false]
+        split <;> rfl
 
 
 /-- Lines that decode to something first, then lines that decode to nothing. -/
@@ -333,6 +337,39 @@ theorem window_ne_nil (orc rem : List Nat) (h : rem ≠ []) : window orc rem ≠
 
 theorem final_cons_eof (a b : List Nat) : Final.cons a (.eof b) = .eof (a ++ b) := rfl
 
+/-- The state the filter is in after all the lines. -/
+def lastPhase : Phase → List Item → Phase
+  | ph, [] => ph
+  | _, it :: r => lastPhase it.ph' r
+
+/-- How the consumer's loop ends when the upstream is exhausted in state `ph`:
+inside the encoded body that is an error ("missing end marker"), otherwise the
+end of the data. -/
+def endR (ph : Phase) (o : List Nat) : Final := if needsRoom ph = true then .fatal o else .eof o
+
+theorem final_cons_endR (a b : List Nat) (ph : Phase) : Final.cons a (endR ph b) = endR ph (a ++ b) := by
+  unfold endR; split <;> rfl
+
+theorem needsRoom_iff (ph : Phase) : (ph = .readUU ∨ ph = .readB64) ↔ needsRoom ph = true := by
+  cases ph <;> simp [needsRoom]
+
+/-- In a stream that ends inside the encoded body no line after the data decodes to
+nothing (there is no trailer): whenever a call returns without output, the
+upstream is exhausted. -/
+def NoZeroSuffix (L : Phase) (items0 : List Item) : Prop :=
+  needsRoom L = true → ∀ done items, items0 = done ++ items → items ≠ [] → outs items ≠ []
+
+theorem noZero_suffix (L : Phase) (done items : List Item) (h : NoZeroSuffix L (done ++ items)) :
+    NoZeroSuffix L items := by
+  intro hL d2 i2 hs hne
+  exact h hL (done ++ d2) i2 (by rw [hs]; simp) hne
+
+theorem lastPhase_append (ph : Phase) (a b : List Item) :
+    lastPhase ph (a ++ b) = lastPhase (lastPhase ph a) b := by
+  induction a generalizing ph with
+  | nil => rfl
+  | cons x xs ih => simp [lastPhase, ih]
+
 theorem loopR_cons_fin (o : List Nat) (u : Nat) (c : List Nat) (ph : Phase) (out : List Nat) (md : Meta) :
     LoopR.cons o (.fin u c ph out md) = .fin u c ph (o ++ out) md := rfl
 theorem loopR_cons_more (o : List Nat) (c : List Nat) (ph : Phase) (md : Meta) :
@@ -350,32 +387,56 @@ theorem carry_lt_done (carry0 : List Nat) (d : Item) (ds items : List Item)
   simp only [text_cons, List.length_append, Item.line_length]; omega
 
 /-- The heart of the argument: wherever one call of `uudecode_filter_read` stops,
-the consumer's loop goes on to deliver exactly what the remaining lines decode to. -/
-theorem inner (orc : List Nat) (tot0 : Nat) (carry0 rem : List Nat) (items0 : List Item)
+the consumer's loop goes on to deliver exactly what the remaining lines decode
+to — and then ends as the last state demands (`endR`). -/
+theorem inner (orc : List Nat) (tot0 : Nat) (carry0 rem : List Nat) (items0 : List Item) (L : Phase)
     (hT : carry0 ++ rem = text items0) (hcar : CarryOk carry0 items0) (hok : ∀ it ∈ items0, ItemOk it)
     (hsafe : Safe items0 (carry0.length + (window orc rem).length))
+    (hnz : NoZeroSuffix L items0)
     (hsh : ∀ done items, items0 = done ++ items →
         (done ≠ [] ∨ items = [] ∨ ∃ it rest, items = it :: rest ∧ carry0.length + (window orc rem).length < it.len) →
         Shape items)
     (IH : ∀ (orc' : List Nat) (st' : RState) (rem' : List Nat) (items' : List Item), rem'.length < rem.length →
-        Pre st' rem' items' → Shape items' → decodeLoop orc' st' rem' = .eof (outs items')) :
+        Pre st' rem' items' → Shape items' → NoZeroSuffix (lastPhase st'.phase items') items' →
+        decodeLoop orc' st' rem' = endR (lastPhase st'.phase items') (outs items')) :
     ∀ (items done : List Item) (ph : Phase) (md : Meta), items0 = done ++ items →
       (text done).length ≤ carry0.length + (window orc rem).length → Chain ph items → ph ≠ .ignore →
+      lastPhase ph items = L →
       cont orc tot0 rem (window orc rem) (carry0.length + (window orc rem).length)
         (LoopR.cons (outs done) (specLoop (carry0.length + (window orc rem).length - (text done).length) items
-          (text done).length (outs done).length ph md)) = .eof (outs done ++ outs items) := by
-  -- general facts about the window
+          (text done).length (outs done).length ph md)) = endR L (outs done ++ outs items) := by
   have hwl : (window orc rem).length ≤ rem.length := window_length_le orc rem
   intro items
   induction items with
   | nil =>
-    intro done ph md hsplit hu hch hph
+    intro done ph md hsplit hu hch hph hL
+    simp only [lastPhase] at hL
+    subst hL
     have hTT : carry0 ++ rem = text done := by rw [hT, hsplit]; simp
     have hlen : carry0.length + rem.length = (text done).length := by rw [← hTT]; simp
     simp only [specLoop, loopR_cons_fin, List.append_nil, cont, outs_nil]
     by_cases hop : outs done = []
-    · simp [hop]
-    · simp only [hop, if_false]
+    · simp only [hop, true_and, if_true]
+      by_cases hroom : needsRoom ph = true
+      · -- the stream ends inside the body: nothing is left, so the window is empty, and that is an error
+        have hi0 : items0 = [] := by
+          cases hi : items0 with
+          | nil => rfl
+          | cons x xs =>
+            exact absurd (by rw [hsplit, List.append_nil]; exact hop)
+              (hnz hroom [] items0 (by simp) (by rw [hi]; simp))
+        have hrem : rem.length = 0 := by
+          have := congrArg List.length hT; rw [hi0] at this; simp at this
+          rw [this.2]; rfl
+        have hw0 : (window orc rem).length = 0 := by omega
+        rw [if_pos ⟨hw0, (needsRoom_iff ph).mpr hroom⟩]
+        simp [endR, hroom]
+      · have : ¬ ((window orc rem).length = 0 ∧ (ph = .readUU ∨ ph = .readB64)) :=
+          fun h => hroom ((needsRoom_iff ph).mp h.2)
+        rw [if_neg this]; simp [endR, hroom]
+    · have hc1 : ¬ (outs done = [] ∧ (window orc rem).length = 0 ∧ (ph = .readUU ∨ ph = .readB64)) :=
+        fun h => hop h.1
+      simp only [hc1, hop, if_false]
       have hdne : done ≠ [] := by intro h; subst h; exact hop rfl
       obtain ⟨d, ds, rfl⟩ : ∃ d ds, done = d :: ds := by
         cases done with
@@ -394,16 +455,16 @@ theorem inner (orc : List Nat) (tot0 : Nat) (carry0 rem : List Nat) (items0 : Li
       rw [hk, List.drop_length]
       rw [IH orc.tail ⟨ph, [], tot0 + (outs (d :: ds)).length, md⟩ [] []
         (by simp; exact List.length_pos_iff.mpr hrem)
-        ⟨trivial, by simp, by simp, rfl, hph⟩ ⟨[], [], rfl, by simp, by simp⟩]
-      simp [Final.cons]
+        ⟨trivial, by simp, by simp, rfl, hph⟩ ⟨[], [], rfl, by simp, by simp⟩
+        (by intro _ d2 i2 hs hne; simp at hs; exact absurd hs.2 hne)]
+      simp [lastPhase, final_cons_endR]
   | cons it rest ih =>
-    intro done ph md hsplit hu hch hph
+    intro done ph md hsplit hu hch hph hL
     obtain ⟨hitph, hch'⟩ := hch
     have hit : ItemOk it := hok it (by rw [hsplit]; simp)
     have hTT : carry0 ++ rem = text done ++ text (it :: rest) := by rw [hT, hsplit, text_append]
     have hlen : carry0.length + rem.length = (text done).length + (text (it :: rest)).length := by
       have := congrArg List.length hTT; simpa using this
-    -- `rem` from offset `n` of the whole text on
     have hF : ∀ n, carry0.length ≤ n → (text done).length ≤ n →
         rem.drop (n - carry0.length) = (text (it :: rest)).drop (n - (text done).length) := by
       intro n h1 h2
@@ -415,21 +476,38 @@ theorem inner (orc : List Nat) (tot0 : Nat) (carry0 rem : List Nat) (items0 : Li
       | cons d ds => exact carry_lt_done carry0 d ds (it :: rest) (by rw [← hsplit]; exact hcar)
     have hopd : outs done ≠ [] → done ≠ [] := by
       intro h hd; subst hd; exact h rfl
+    have hnzi : NoZeroSuffix L (it :: rest) := noZero_suffix L done (it :: rest) (hsplit ▸ hnz)
+    have hLi : lastPhase ph (it :: rest) = L := hL
+    have hrem : rem ≠ [] := by
+      intro h
+      have h1 : carry0.length = (text items0).length := by rw [← hT, h]; simp
+      cases hi : items0 with
+      | nil => rw [hi] at hsplit; simp at hsplit
+      | cons x xs =>
+        rw [hi] at hcar h1
+        simp only [CarryOk] at hcar
+        simp only [text_cons, List.length_append, Item.line_length] at h1
+        omega
+    have hwne : window orc rem ≠ [] := window_ne_nil orc rem hrem
+    have hwpos : 0 < (window orc rem).length := List.length_pos_iff.mpr hwne
     generalize hA : carry0.length + (window orc rem).length = A at *
     generalize hU : (text done).length = u at *
     have hitl : (text (it :: rest)).length = it.len + (text rest).length := by simp
+    have hnotrunc : ∀ (o : List Nat) (p : Phase), ¬ (o = [] ∧ (window orc rem).length = 0 ∧ (p = .readUU ∨ p = .readB64)) := by
+      intro o p h; omega
     rw [specLoop]
     by_cases ha0 : A - u = 0
     · -- the window ends exactly at a line boundary
-      simp only [ha0, if_true, loopR_cons_fin, List.append_nil, cont]
+      simp only [ha0, if_true, loopR_cons_fin, List.append_nil, cont, hnotrunc, if_false]
       have hAu : u = A := by omega
       by_cases hop : outs done = []
       · simp only [hop, if_true, List.nil_append]
-        rw [hsafe done (it :: rest) hsplit hop (by omega)]
+        have ho := hsafe done (it :: rest) hsplit hop (by omega)
+        rw [ho]
+        have : ¬ (needsRoom L = true) := fun hr => hnzi hr [] (it :: rest) rfl (by simp) ho
+        simp [endR, this]
       · simp only [hop, if_false]
         have hc0 := hdc (hopd hop)
-        have hwpos : 0 < (window orc rem).length := by omega
-        have hrem : rem ≠ [] := by intro h; subst h; simp [window] at hwpos; cases orc <;> simp at hwpos
         have hu' : ¬ ((u : Int) - ((A : Int) - ((window orc rem).length : Nat)) ≤ 0 ∨ rem = []) := by
           intro h; rcases h with h | h
           · omega
@@ -439,24 +517,13 @@ theorem inner (orc : List Nat) (tot0 : Nat) (carry0 rem : List Nat) (items0 : Li
         rw [hk]
         have hdrop := hF u (by omega) (by omega)
         simp only [Nat.sub_self, List.drop_zero] at hdrop
-        rw [IH orc.tail _ (rem.drop (u - carry0.length)) (it :: rest) (by simp; omega)
+        rw [IH orc.tail ⟨ph, [], tot0 + (outs done).length, md⟩ (rem.drop (u - carry0.length)) (it :: rest)
+          (by simp; omega)
           ⟨⟨hitph, hch'⟩, fun x hx => hok x (by rw [hsplit]; simp [hx]), by simp [hdrop],
             by simp [CarryOk, Item.len], hph⟩
-          (hsh done (it :: rest) hsplit (Or.inl (hopd hop)))]
-        rfl
+          (hsh done (it :: rest) hsplit (Or.inl (hopd hop))) (hLi ▸ hnzi)]
+        simp [hLi, final_cons_endR]
     · simp only [ha0, if_false]
-      have hrem : rem ≠ [] := by
-        intro h
-        have h1 : carry0.length = (text items0).length := by rw [← hT, h]; simp
-        cases hi : items0 with
-        | nil => rw [hi] at hsplit; simp at hsplit
-        | cons x xs =>
-          rw [hi] at hcar h1
-          simp only [CarryOk] at hcar
-          simp only [text_cons, List.length_append, Item.line_length] at h1
-          omega
-      have hwne : window orc rem ≠ [] := window_ne_nil orc rem hrem
-      have hwpos : 0 < (window orc rem).length := List.length_pos_iff.mpr hwne
       by_cases hlt : A - u < it.len
       · -- the window ends inside this line
         simp only [hlt, if_true]
@@ -484,22 +551,24 @@ theorem inner (orc : List Nat) (tot0 : Nat) (carry0 rem : List Nat) (items0 : Li
           simp only [ht0, if_true, loopR_cons_more, cont]
           have : ¬ ((window orc rem).length = 0) := by omega
           simp only [this, if_false]
-          rw [IH orc.tail _ _ (it :: rest) (by simp; omega) (hpre tot0) hshape, hop]
-          rfl
+          rw [IH orc.tail ⟨ph, it.line.take (A - u), tot0, md⟩ _ (it :: rest) (by simp; omega) (hpre tot0) hshape
+            (hLi ▸ hnzi), hop]
+          simp only [hLi, List.nil_append]
         · have hop : outs done ≠ [] := by intro h; rw [h] at ht0; exact ht0 rfl
-          simp only [ht0, if_false, loopR_cons_fin, List.append_nil, cont, hop]
+          simp only [ht0, if_false, loopR_cons_fin, List.append_nil, cont, hnotrunc, hop]
           have hu' : ¬ (((u + (A - u) : Nat) : Int) - ((A : Int) - ((window orc rem).length : Nat)) ≤ 0 ∨ rem = []) := by
             intro h; rcases h with h | h
             · omega
             · exact hrem h
           simp only [hu', if_false]
           have hk : (((u + (A - u) : Nat) : Int) - ((A : Int) - ((window orc rem).length : Nat))).toNat = (window orc rem).length := by omega
-          rw [hk, IH orc.tail _ _ (it :: rest) (by simp; omega) (hpre _) hshape]
-          rfl
+          rw [hk, IH orc.tail ⟨ph, it.line.take (A - u), tot0 + (outs done).length, md⟩ _ (it :: rest)
+            (by simp; omega) (hpre _) hshape (hLi ▸ hnzi)]
+          simp [hLi, final_cons_endR]
       · simp only [hlt, if_false]
         by_cases hfull : needsRoom ph = true ∧ (outs done).length + it.len * 2 > outBuffSize
         · -- no room left in the output buffer: the call returns what it has
-          simp only [hfull, and_self, if_true, loopR_cons_fin, List.append_nil, cont]
+          simp only [hfull, and_self, if_true, loopR_cons_fin, List.append_nil, cont, hnotrunc, if_false]
           have htpos : 0 < (outs done).length := by
             rcases hit.small with h | h
             · omega
@@ -516,23 +585,24 @@ theorem inner (orc : List Nat) (tot0 : Nat) (carry0 rem : List Nat) (items0 : Li
           rw [hk]
           have hdrop := hF u (by omega) (by omega)
           simp only [Nat.sub_self, List.drop_zero] at hdrop
-          rw [IH orc.tail _ (rem.drop (u - carry0.length)) (it :: rest) (by simp; omega)
+          rw [IH orc.tail ⟨ph, [], tot0 + (outs done).length, md⟩ (rem.drop (u - carry0.length)) (it :: rest)
+            (by simp; omega)
             ⟨⟨hitph, hch'⟩, fun x hx => hok x (by rw [hsplit]; simp [hx]), by simp [hdrop],
               by simp [CarryOk, Item.len], hph⟩
-            (hsh done (it :: rest) hsplit (Or.inl (hopd hop)))]
-          rfl
+            (hsh done (it :: rest) hsplit (Or.inl (hopd hop))) (hLi ▸ hnzi)]
+          simp [hLi, final_cons_endR]
         · -- the line is processed; go on with the next one
           simp only [hfull, if_false, cons_cons]
           have hsplit' : items0 = (done ++ [it]) ++ rest := by rw [hsplit]; simp
           have h1 : (text (done ++ [it])).length = u + it.len := by simp [text_append, hU]
           have h2 : outs (done ++ [it]) = outs done ++ it.out := by simp [outs_append]
           have := ih (done ++ [it]) it.ph' (it.mdf md) hsplit' (by rw [h1]; omega) hch' hit.notIgnore.2
+            (by simpa [lastPhase] using hLi)
           rw [h1, h2] at this
           have h3 : A - (u + it.len) = A - u - it.len := by omega
           rw [h3] at this
           simp only [List.length_append] at this
           rw [this]; simp
-
 
 theorem loopR_cons_nil (r : LoopR) : LoopR.cons [] r = r := by cases r <;> simp [LoopR.cons]
 
@@ -579,13 +649,15 @@ theorem decodeLoop_spec (orc : List Nat) (st : RState) (rem : List Nat) (items :
 
 /-- **Every sequence of read windows**: from a line boundary (possibly with a
 partial line carried over), the consumer gets exactly what the remaining lines
-decode to, then end of data. -/
+decode to; then the end of data — or, when the lines stop inside the encoded
+body, an error. -/
 theorem decode_items : ∀ (n : Nat) (orc : List Nat) (st : RState) (rem : List Nat) (items : List Item),
-    rem.length = n → Pre st rem items → Shape items → decodeLoop orc st rem = .eof (outs items) := by
+    rem.length = n → Pre st rem items → Shape items → NoZeroSuffix (lastPhase st.phase items) items →
+    decodeLoop orc st rem = endR (lastPhase st.phase items) (outs items) := by
   intro n
   induction n using Nat.strongRecOn with
   | _ n ihn =>
-    intro orc st rem items hn hpre hshape
+    intro orc st rem items hn hpre hshape hnz
     rw [decodeLoop_spec orc st rem items hpre]
     obtain ⟨hch, hok, hT, hcar, hph⟩ := hpre
     have hwl := window_length_le orc rem
@@ -602,19 +674,20 @@ theorem decode_items : ∀ (n : Nat) (orc : List Nat) (st : RState) (rem : List 
         subst hr
         simp only [text_cons, List.length_append, Item.line_length, List.length_nil] at hlenT
         simp [Item.len] at hlenT; omega
-    have := inner orc st.total st.carry rem items hT hcar hok
-      (safe_of_shape items _ hshape h0)
+    have := inner orc st.total st.carry rem items (lastPhase st.phase items) hT hcar hok
+      (safe_of_shape items _ hshape h0) hnz
       (fun done items' hs _ => shape_suffix done items' (hs ▸ hshape))
-      (fun orc' st' rem' items' hlt hp hs => ihn rem'.length (by omega) orc' st' rem' items' rfl hp hs)
-      items [] st.phase st.md rfl (by simp) hch hph
+      (fun orc' st' rem' items' hlt hp hs hz => ihn rem'.length (by omega) orc' st' rem' items' rfl hp hs hz)
+      items [] st.phase st.md rfl (by simp) hch hph rfl
     simpa [loopR_cons_nil] using this
 
 /-- The same from the very beginning of a stream whose first line (the `begin`
 line) decodes to nothing: the first window must reach beyond that line. -/
 theorem decode_with_header (first : Nat) (orc : List Nat) (hdr : Item) (rest0 : List Item)
     (hch : Chain .findHead (hdr :: rest0)) (hok : ∀ it ∈ hdr :: rest0, ItemOk it)
-    (hout : hdr.out = []) (hshape : Shape rest0) (hfirst : hdr.len ≤ first) :
-    decode first orc (text (hdr :: rest0)) = .eof (outs rest0) := by
+    (hout : hdr.out = []) (hshape : Shape rest0) (hfirst : hdr.len ≤ first)
+    (hnz : NoZeroSuffix (lastPhase hdr.ph' rest0) (hdr :: rest0)) :
+    decode first orc (text (hdr :: rest0)) = endR (lastPhase hdr.ph' rest0) (outs rest0) := by
   unfold decode
   have hpre : Pre ({} : RState) (text (hdr :: rest0)) (hdr :: rest0) :=
     ⟨hch, hok, by simp, by simp [CarryOk, Item.len], by simp⟩
@@ -671,9 +744,10 @@ theorem decode_with_header (first : Nat) (orc : List Nat) (hdr : Item) (rest0 : 
       exact shape_suffix ds items (hs.2 ▸ hshape)
   rw [← hA] at hsafe
   have := inner (first :: orc) ({} : RState).total ({} : RState).carry (text (hdr :: rest0)) (hdr :: rest0)
-    (by simp) (by simp [CarryOk, Item.len]) hok hsafe hsh
-    (fun orc' st' rem' items' _ hp hs => decode_items rem'.length orc' st' rem' items' rfl hp hs)
-    (hdr :: rest0) [] .findHead {} rfl (by simp) hch (by simp)
+    (lastPhase hdr.ph' rest0)
+    (by simp) (by simp [CarryOk, Item.len]) hok hsafe hnz hsh
+    (fun orc' st' rem' items' _ hp hs hz => decode_items rem'.length orc' st' rem' items' rfl hp hs hz)
+    (hdr :: rest0) [] .findHead {} rfl (by simp) hch (by simp) rfl
   rw [hA] at this
   simpa [loopR_cons_nil, hout] using this
 
